@@ -9,6 +9,7 @@ import (
 	"encoding/json"
 	"fmt"
 	"io"
+	"math"
 	"os"
 	"path"
 	"regexp"
@@ -1078,7 +1079,8 @@ func (dn *dirnode) loadManifest(txt string) error {
 				return fmt.Errorf("line %d: bad file segment %q", lineno, token)
 			}
 			length, err := strconv.ParseInt(toks[1], 10, 64)
-			if err != nil || length < 0 {
+			if err != nil || length < 0 || offset > math.MaxInt64-length {
+				// (offset+length must not overflow int64 below)
 				return fmt.Errorf("line %d: bad file segment %q", lineno, token)
 			}
 			name := dirname + "/" + manifestUnescape(toks[2])
